@@ -1329,11 +1329,49 @@ def check_signatures(ev, fails):
                 ev.case(key=["signature", sig, call, site], nontrivial="*" in sig or "/" in sig, labels=("signature:" + site,))
 
 
+# ---- entries of a filter list that are expressions, not names: applied as written ------------------------------------------
+FILTER_ENTRIES = ["(fa or fb)", "(off or fb)", "(on and fa)", "(on and fa or fb)", "(fa if on else fb)", "(fb if off else fa)",
+                  "(lambda s: s + '!')", "[fa, fb][1]", "flags['k']", "(fa)", "mk('x')", "(mk)('y')", "(on and flags)['k']",
+                  "(not off and fa)", "(fa if on else mk('z'))", "(lambda s, *, up=True: s.upper() if up else s)"]
+
+
+def check_filter_entries(ev, fails):
+    from mako.template import Template
+
+    def ns():
+        return {"fa": lambda s: "a(%s)" % s, "fb": lambda s: "b[%s]" % s, "flags": {"k": lambda s: "k<%s>" % s},
+                "mk": lambda x: (lambda s: x + s), "on": True, "off": 0}
+
+    k = 0
+    for e in FILTER_ENTRIES:
+        want = eval(e, ns())("v")
+        sites = {
+            "expression": "${'v' | n, %s}" % e,
+            "expression-after-other": "${'v' | n, %s, fb}" % e,
+            "def-filter": '<%%def name="d()" filter="%s">v</%%def>${d()}' % e.replace('"', "'"),
+            "text-filter": '<%%text filter="%s">v</%%text>' % e.replace('"', "'"),
+        }
+        for site, src in sorted(sites.items()):
+            k += 1
+            exp = ns()["fb"](want) if site == "expression-after-other" else want
+            try:
+                got = Template(src, uri="/c19fe_%d.html" % k).render_unicode(**ns())
+            except Exception as ex:  # noqa: BLE001
+                got = "%s: %s" % (type(ex).__name__, str(ex)[:100])
+            if got != exp:
+                f = Failure({"part": "filter-entry", "entry": e, "site": site},
+                            "filter entry %s (%s): the callable the expression evaluates to gives %r, the template %r\n%s" % (e, site, exp, got, src),
+                            "filter-entry-expression")
+                fails.setdefault(f.key, f)
+            ev.case(key=["filter-entry", e, site], nontrivial=True, labels=("filter-entry:" + site,))
+
+
 def run(ctx):
     core.setup_repo()
     warnings.simplefilter("ignore")
     sfails = {}
     check_signatures(ctx.ev, sfails)
+    check_filter_entries(ctx.ev, sfails)
     for f_ in sfails.values():
         ctx.fail(f_)
     part = getattr(ctx, "part", None)
@@ -1376,6 +1414,10 @@ def replay(case):
             check_block(case["src"], case["env"], case["outs"], finding=case.get("finding"))
         elif case["part"] == "margin":
             check_margin(case, finding=case.get("finding"))
+        elif case["part"] == "filter-entry":
+            fails = {}
+            check_filter_entries(core.Evidence(), fails)
+            return next((f for f in fails.values()), None)
         elif case["part"] == "signature":
             fails = {}
             check_signatures(core.Evidence(), fails)
